@@ -34,6 +34,7 @@ def env_with(src):
     e = dict(os.environ)
     e["PYTHONPATH"] = src
     e["PHYST_SRC"] = src
+    e["HYPOTHESIS_STORAGE_DIRECTORY"] = "/var/tmp/hyp-suite"  # keep hypothesis' example database out of /repo
     return e
 
 
